@@ -30,6 +30,8 @@ def run(ctx):
     r85(ctx, api)
     r86(ctx, ut)
     r87(ctx, ut)
+    from . import findings2 as _f2
+    _f2.categorical_partition_labels(ctx, 'R8.10')
     r89(ctx, ut)
     from . import c14 as _c14
     _c14.r146(ctx, 'R8.8')
